@@ -183,8 +183,84 @@ def rule_drain(ctx):
     ctx.units["C12.delivery_loops"] = n_loops
 
 
+def rule_recover(ctx):
+    """after a failure the stack is usable again - two scenarios abstractly executed: (a) YowLayer.toLower with the lower
+    layer raising: the layer's lock is free afterwards (whatever construct takes it: acquire/release, `with`, a decorator,
+    a generator-based context manager); (b) the noise layer's flush with the layer above raising on a frame: the flush
+    lock is free afterwards, and the NEXT flush on the same thread still drains the queue (no stale 'already flushing'
+    marker)"""
+    from . import c11, c04
+    from ..absint import _Raise, C_NONE, flat_effects, NeedAtom
+    repo = ctx.repo
+    fn = repo.method("yowsup/layers/__init__.py", "YowLayer", "toLower")
+    w = where("yowsup/layers/__init__.py", "YowLayer.toLower", fn.lineno)
+    try:
+        _s, end_f, r_f, lk = c11.run_tolower(repo, lower_raises=True)
+    except NeedAtom as x:
+        try:
+            _s, end_f, r_f, lk = c11.run_tolower(repo, lower_raises=True, cell={x.atom: True})
+        except NeedAtom:
+            lk = None
+    if lk is None:
+        ctx.undecided("C12.rel", w, fn, "the layer's lock was not identified")
+    else:
+        ctx.check("C12.rel", end_f == 0 and r_f is not None, w, "self.lock after the lower layer raised",
+                  "lock self.lock stays held on a exceptional exit: after the lower layer's send raised the lock is still held %s time(s)%s" % (end_f, "" if r_f else " (and the error was swallowed)"),
+                  "released (and the error reported) when the lower layer raises")
+    roles = c04.noise_roles(repo)
+    ff = repo.method(c04.NOISE, c04.CN, roles["flush"])
+    wf = where(c04.NOISE, c04.CN + "." + roles["flush"], ff.lineno)
+    state = {"queued": 1, "fail": True}
+
+    def qsize(itp, recv, a, k, env, d, e):
+        return ("c", state["queued"])
+
+    def empty(itp, recv, a, k, env, d, e):
+        return ("c", state["queued"] == 0)
+
+    def receive(itp, recv, a, k, env, d, e):
+        state["queued"] -= 1
+        return ("ext", "FRAME", [])
+    hooks = {"ext:inq.qsize": qsize, "ext:inq.empty": empty, "method:receive": receive}
+    it, layer, cls = c04._noise_layer(repo, roles, extra_hooks=hooks)
+    del it.hooks["fn:" + roles["flush"]]
+    up0 = it.hooks["method:toUpper"]
+
+    def up(itp, recv, a, k, env, d, e):
+        r = up0(itp, recv, a, k, env, d, e)
+        if state["fail"]:
+            raise _Raise(("ext", "HandlerError", []), "the layer above raises")
+        return r
+    it.hooks["method:toUpper"] = up
+    lock = layer[1].fields.get(roles["lock"])
+    results = []
+    for fail in (True, False):
+        state["queued"], state["fail"] = 1, fail
+        it.effects[:] = []
+        raised = None
+        try:
+            it.method_call(layer, roles["flush"], [], {}, {"@module": cls.module, "@owner": cls}, 0, None)
+        except _Raise as r:
+            raised = r.text
+        except NeedAtom as x:
+            ctx.undecided("C12.rel", wf, ff, "the flush function depends on a test the interpreter cannot decide: %s (C04.flush judges a try-lock)" % (x.atom,))
+            return
+        effs = list(flat_effects(it.effects))
+        results.append((raised, len([e for e in effs if e[0] == "UP"]), c11.lock_balance(effs, lock) if lock is not None and lock[0] == "ext" else None, state["queued"]))
+    (r1, up1, held1, _q1), (r2, up2, held2, q2) = results
+    if lock is None or lock[0] != "ext":
+        ctx.undecided("C12.rel", wf, ff, "the flush lock was not identified as a lock object")
+        return
+    ctx.check("C12.rel", r1 is not None and held1 == 0, wf, "flush lock after a delivery raised", "lock self.%s stays held on a exceptional exit (held %s time(s) after the layer above raised%s)" % (roles["lock"], held1, "" if r1 else "; the error was swallowed"),
+              "released when the delivery raises")
+    ctx.check("C12.drain", r2 is None and up2 == 1 and q2 == 0 and held2 == 0, wf, "the flush after a failed one still drains",
+              "after a delivery raised, the next flush on the same thread delivers %d frame(s) and leaves %d queued: incoming frames are queued and never delivered (a stale 'already flushing' marker, or a lock that is still held)" % (up2, q2),
+              "next flush delivers the queued frame")
+
+
 def run(ctx):
     ctx.guarded("C12.rel", rule_rel, ctx)
+    ctx.guarded("C12.rel", rule_recover, ctx)
     ctx.guarded("C12.drain", rule_drain, ctx)
     from .c18 import rule_prim
     ctx.guarded("C12.order", rule_prim, ctx, "C12.order", ("detached",))
